@@ -24,6 +24,7 @@ def build_cases(ctx, n, focus, classes, prefix, gen_kwargs=None, docs_per=3, ext
         seen = set()
         for k in range(docs_per):
             try:
+                dg.maximal = (k == 0 and docs_per > 1)          # the first document spells out every optional property, the last one none
                 base = dg.valid(minimal=(k == docs_per - 1))
             except ValueError:
                 continue
